@@ -8,6 +8,8 @@ unset MIRIFLAGS RUSTFLAGS
 cargo build --release --offline || exit 2
 ./target/release/sim oracle-check || exit 2
 ./target/release/sim seam-check || exit 2
+# Engine S: shadow copy of /repo/bio-seq + shuttle build (best effort; the checks rebuild it anyway)
+( cd .. && python3 tools/gen_shadow.py && cd sim-shuttle && cargo build --release --offline ) || echo "setup: shuttle engine build failed (Engine S will report unavailable)"
 # warm the Miri sysroot and the Miri build of the simulator (best effort)
 cargo +nightly miri setup >/dev/null 2>&1 || echo "setup: cargo miri setup failed (Engine M will report unavailable)"
 MIRIFLAGS="-Zmiri-disable-stacked-borrows -Zmiri-ignore-leaks -Zmiri-permissive-provenance" \
